@@ -336,6 +336,42 @@ func c11L2(r *Run, rep *core.Report) {
 			rep.Check(bad == "", "C11.L2", fn(f)+" chain walk", r.P.Pos(f.Pos()), "emptiness is reported only after the whole chain was scanned", bad)
 		}
 	}
+	// chain walks advance along the link of the bucket they stand on
+	nAdv := 0
+	for _, mm := range r.M.Maps {
+		for _, f := range mapFuncs(r, mm) {
+			core.Instrs(f, func(in ssa.Instruction) {
+				phi, ok := in.(*ssa.Phi)
+				if !ok || !isBucketType(r, elemOf(phi.Type())) {
+					return
+				}
+				for _, e := range phi.Edges {
+					e = core.StripConv(e)
+					var addr ssa.Value
+					if ld, isLd := e.(*ssa.UnOp); isLd && ld.Op == token.MUL {
+						addr = ld.X
+					} else if c, isCall := e.(*ssa.Call); isCall {
+						if a, isLoad := atomicLoadAddr(c); isLoad {
+							addr = a
+						}
+					}
+					if addr == nil {
+						continue
+					}
+					a := core.Addr(addr)
+					if !isBucketOwner(r, a.Owner) || a.Field == "" || a.Field[len(a.Field)-1] == ']' {
+						continue
+					}
+					nAdv++
+					base := core.StripConv(bucketOfAddr(addr))
+					rep.Check(base == ssa.Value(phi), "C11.L2", fmt.Sprintf("%s chain walk b%d advances along its own link", fn(f), phi.Block().Index), r.P.InstrPos(phi),
+						"the walk's next bucket is the link of the bucket it stands on",
+						"the chain walk's next bucket is read from the link of "+base.Name()+", not of the bucket the walk stands on: on a chain of three or more buckets the walk never gets past the second one (buckets are skipped, or the loop never ends while holding the lock)")
+				}
+			})
+		}
+	}
+	rep.MinCount("C11.L2", "chain-walk advance steps", nAdv, 6)
 	rep.MinCount("C11.L2", "slot loops", nSlot, 8)
 	rep.MinCount("C11.L2", "chain walks", nChain, 5)
 }
